@@ -173,22 +173,22 @@ func (s *TypeSpec) Composite() bool {
 
 // TypeCfg selects the features of the grammar a check wants.
 type TypeCfg struct {
-	MaxDepth    int
-	MaxFields   int
-	Prims       []string // allowed primitive kinds (default: all)
-	Leaves      []string // allowed leaf-library types ("" = none)
-	KeyKinds    []string // allowed map key kinds: prim names or "leaf:<Name>"
-	Tags        bool     // draw struct tags
-	StringTag   bool     // allow ",string"
-	Embedded    bool     // allow embedded structs
-	Unexported  bool     // allow unexported fields
-	PtrDepth    int      // max consecutive pointer levels
-	BigArrays   bool     // allow array lengths 17, 64
-	ElemFilter  func(parent string, child *TypeSpec) bool // optional veto on a child under a parent kind
-	NoIface     bool
-	FieldNames  []string
-	Wide        bool // sometimes 9..17 fields (bitmap key matcher widths 8/16/none)
-	NoDashTag   bool // never "-" tags
+	MaxDepth   int
+	MaxFields  int
+	Prims      []string                                  // allowed primitive kinds (default: all)
+	Leaves     []string                                  // allowed leaf-library types ("" = none)
+	KeyKinds   []string                                  // allowed map key kinds: prim names or "leaf:<Name>"
+	Tags       bool                                      // draw struct tags
+	StringTag  bool                                      // allow ",string"
+	Embedded   bool                                      // allow embedded structs
+	Unexported bool                                      // allow unexported fields
+	PtrDepth   int                                       // max consecutive pointer levels
+	BigArrays  bool                                      // allow array lengths 17, 64
+	ElemFilter func(parent string, child *TypeSpec) bool // optional veto on a child under a parent kind
+	NoIface    bool
+	FieldNames []string
+	Wide       bool // sometimes 9..17 fields (bitmap key matcher widths 8/16/none)
+	NoDashTag  bool // never "-" tags
 }
 
 var DefaultKeyKinds = []string{"string", "string", "string", "int", "int8", "int16", "int32", "int64", "uint", "uint8", "uint16", "uint32", "uint64", "uintptr", "leaf:NStr", "leaf:NInt"}
